@@ -32,15 +32,18 @@ func errCode(err error) int {
 	}
 	m := err.Error()
 	switch {
-	case strings.HasPrefix(m, "malformed HTTP request"):
+	case strings.HasPrefix(m, "malformed HTTP request"), strings.HasPrefix(m, "invalid method"):
 		return 2
+	case strings.HasPrefix(m, "invalid header field name"):
+		return 12
 	case strings.HasPrefix(m, "exceed maxUriBytes"):
 		return 3
 	case strings.HasPrefix(m, "malformed HTTP version"):
 		return 4
 	case strings.HasPrefix(m, "unsupported transfer encoding"), strings.HasPrefix(m, "too many transfer encodings"):
 		return 7
-	case strings.HasPrefix(m, "bad Content-Length"), strings.HasPrefix(m, "conflicting Content-Length"):
+	case strings.HasPrefix(m, "bad Content-Length"), strings.HasPrefix(m, "conflicting Content-Length"),
+		strings.HasPrefix(m, "invalid empty Content-Length"):
 		return 8
 	case strings.HasPrefix(m, "bad trailer key"):
 		return 9
